@@ -73,8 +73,11 @@ func genC03Cli(r *hysim.Rand, tier string) *hysim.Script {
 			sc.Ops = append(sc.Ops, hysim.Op{K: "close", A: []int64{int64(r.Range(1, nsess))}})
 		case p < 78:
 			sc.Ops = append(sc.Ops, hysim.Op{K: "newudp"})
-		case p < 84:
+		case p < 82:
 			sc.Ops = append(sc.Ops, hysim.Op{K: "limit", A: []int64{int64(r.Pick(0, 40, 64, 300, 1200))}})
+		case p < 86:
+			// every open session sends at the same time (one sender task per session)
+			sc.Ops = append(sc.Ops, hysim.Op{K: "sendburst", A: []int64{int64(r.Range(1, 4)), int64(r.Pick(1, 40, 700, 1500, 3000))}})
 		default:
 			sc.Ops = append(sc.Ops, hysim.Op{K: "canary", A: []int64{int64(r.Range(1, 3000)), int64(r.Range(1, 2000))}})
 		}
@@ -149,9 +152,16 @@ func (w *c03Cli) SendMessage(buf []byte, msg *protocol.UDPMessage) error {
 		w.x.Probe("datagram-too-large")
 		return &quic.DatagramTooLargeError{MaxDatagramPayloadSize: int64(w.limit)}
 	}
+	// like client.go's udpIOImpl: serialise into the caller's buffer, then hand the bytes to the
+	// transport - which takes them a moment later
+	hysim.Yield("c03io.SendMessage:transport")
 	pm, err := protocol.ParseUDPMessage(mut.Exact(buf[:n]))
 	if err != nil {
-		w.x.Violate("canary-starved", "the client emitted an unparsable datagram: %v", err)
+		w.x.Violate("datagram-corrupted", "the client emitted an unparsable datagram for session %d: %v", msg.SessionID, err)
+		return nil
+	}
+	if pm.SessionID != msg.SessionID || pm.PacketID != msg.PacketID || pm.FragID != msg.FragID || pm.FragCount != msg.FragCount || pm.Addr != msg.Addr || !bytes.Equal(pm.Data, msg.Data) {
+		w.x.Violate("datagram-corrupted", "the datagram that leaves for session %d (packet %d fragment %d/%d, %d bytes to %s) carries session %d packet %d fragment %d/%d, %d bytes to %s: not what that session sent", msg.SessionID, msg.PacketID, msg.FragID, msg.FragCount, len(msg.Data), msg.Addr, pm.SessionID, pm.PacketID, pm.FragID, pm.FragCount, len(pm.Data), pm.Addr)
 		return nil
 	}
 	w.sent = append(w.sent, pm)
@@ -321,6 +331,30 @@ func execC03Cli(x *hysim.Run) {
 					}
 				}
 				x.Probe("session-closed-under-traffic")
+			}
+		case "sendburst":
+			cnt, size := mut.Clamp(op.Arg(0), 1, 8), mut.Clamp(op.Arg(1), 1, 4000)
+			done := make(chan struct{}, 16)
+			started := 0
+			for _, rd := range w.order {
+				if rd.done || rd.closed {
+					continue
+				}
+				rd := rd
+				started++
+				hysim.Go("harness:sender", func() {
+					defer func() { done <- struct{}{} }()
+					for k := 0; k < cnt; k++ {
+						out := mut.Fill(size, byte(rd.id)*16+byte(k))
+						_ = rd.conn.Send(out, fmt.Sprintf("s%d.sim:%d", rd.id, 7000+k))
+					}
+				})
+			}
+			for ; started > 0; started-- {
+				<-done
+			}
+			if len(w.order) > 1 {
+				x.Probe("concurrent-senders")
 			}
 		case "newudp":
 			if len(w.readers) < 12 {
